@@ -12,6 +12,7 @@ import (
 	"os"
 	"sync"
 	"time"
+	"unsafe"
 )
 
 type VxReplay struct {
@@ -240,3 +241,17 @@ func VxTimeNano(t time.Time) int64  { return t.UnixNano() }
 // VxSpawned: number of goroutines the code under test has started so far
 // (symbolic side: counted `go` statements; native side: the model's value).
 func VxSpawned() int { return int(VxRT.next("vx.spawned")) }
+
+// VxHashPtr: hash of a pointer key by its identity.
+func VxHashPtr(p unsafe.Pointer, seed uint64) uint64 {
+	if p == nil {
+		return VxHashU64(0, seed)
+	}
+	// native: identify the harness' pointer cells by index so that the model's table applies
+	for i := range vxPtrCells {
+		if p == unsafe.Pointer(&vxPtrCells[i]) {
+			return VxHashU64(uint64(i+1), seed)
+		}
+	}
+	return VxHashU64(uint64(uintptr(p)), seed)
+}
